@@ -270,3 +270,91 @@ Example C01_history_ex : wf (GRepeat 2 1 12 2 (GSqEnv 4 (7 # 2) 2 (GEnv 2 0 8 2 
   = flatten_evs (ref_run (GRepeat 2 1 12 2 (GSqEnv 4 (7 # 2) 2 (GEnv 2 0 8 2 (GCar 1)))) 0
           [Next 5; Query; Rest; Next 3; Reset; Next 0; Query; Next 40; Rest]).
 Proof. vm_compute. repeat split; reflexivity. Qed.
+
+(* ==================================================================================================================
+   TRANSLATOR TIE, second part (Stim/ProofsTieRep.v): repeat(), RepeatFactory.reset, Transform.next / reset as regenerated
+   from the current psiaudio/stim.py in gen/StimIdxGen.v. *)
+From PV Require Import Stim.ProofsTieRep.
+
+(* repeat(): length test, ValueError and row layout (zeros((n + skip_n, s_period)), rows skip_n.. carrying the waveform at
+   column s_delay, ravel) equal the model's repeat_wave on the model's domain (counts and delay not negative) *)
+Theorem C01_source_repeat_tie : forall n skip period sdelay w, 0 <= n -> 0 <= skip -> 0 <= sdelay ->
+  gen_repeat period sdelay w n skip = repeat_wave n skip period sdelay w.
+Proof. exact repeat_tie. Qed.
+Print Assumptions C01_source_repeat_tie.
+
+Example C01_source_repeat_tie_ex : gen_repeat 5 1 [[fone]; [fone]] 2 1 = repeat_wave 2 1 5 1 [[fone]; [fone]] /\
+  repeat_wave 2 1 5 1 [[fone]; [fone]] <> None.
+Proof. exact repeat_tie_ex. Qed.
+
+Theorem C01_source_repeat_tie_refuted : exists n skip period sdelay w, sdelay < 0 /\
+  gen_repeat period sdelay w n skip <> repeat_wave n skip period sdelay w.
+Proof. exact repeat_tie_refuted. Qed.
+Print Assumptions C01_source_repeat_tie_refuted.
+
+(* the GRepeat case of greset: reset + get_samples_remaining of the input, then the regenerated RepeatFactory.reset
+   (from ANY previous record of the object) on what the input handed out *)
+Theorem C01_source_repeat_greset_tie : forall R n skip period sdelay g st, 0 <= n -> 0 <= skip -> 0 <= sdelay ->
+  greset R (GRepeat n skip period sdelay g) =
+  match greset R g with
+  | None => None
+  | Some i =>
+    match remaining g i with
+    | None => None
+    | Some r =>
+      match gnext R g i r with
+      | None => None
+      | Some (i', w) =>
+        match gen_repeat_reset period sdelay n skip st w with
+        | None => None
+        | Some st' => Some (SRep (fixed_offset st') (fixed_waveform st') i')
+        end
+      end
+    end
+  end.
+Proof. exact repeat_greset_tie. Qed.
+Print Assumptions C01_source_repeat_greset_tie.
+
+(* Transform.next (offset += len(output)) in the GFilt and GSam cases of gnext; Transform.reset in greset *)
+Theorem C01_source_filt_next_tie : forall R fid g' o i n,
+  gnext R (GFilt fid g') (SNode o i) n =
+  match gnext R g' i n with
+  | None => None
+  | Some (i', tok) =>
+    let '(st', out) := gen_transform_next {| xform_offset := o |} n tok (zrange (fun p => [(8, fid, p)]) o (zlen tok)) in
+    Some (SNode (xform_offset st') i', out)
+  end.
+Proof. exact filt_next_tie. Qed.
+Print Assumptions C01_source_filt_next_tie.
+
+Theorem C01_source_sam_next_tie : forall nid D g' o i n,
+  gnext all_repaired (GSam nid D g') (SNode o i) n =
+  match gnext all_repaired g' i n with
+  | None => None
+  | Some (i', tok) =>
+    match map2_mul (gen_sam_envelope nid D o (zlen tok)) tok with
+    | None => None
+    | Some w => let '(st', out) := gen_transform_next {| xform_offset := o |} n tok w in
+                Some (SNode (xform_offset st') i', out)
+    end
+  end.
+Proof. exact sam_next_tie. Qed.
+Print Assumptions C01_source_sam_next_tie.
+
+Theorem C01_source_transform_greset_tie : forall R fid g' st,
+  greset R (GFilt fid g') =
+  match greset R g' with Some i => Some (SNode (xform_offset (gen_transform_reset st)) i) | None => None end.
+Proof. exact transform_greset_tie. Qed.
+Print Assumptions C01_source_transform_greset_tie.
+
+(* C01_repeat_rows over the regenerated definitions *)
+Theorem C01_source_repeat_rows : forall n skip period sdelay g cs st0,
+  wf (GRepeat n skip period sdelay g) = true -> nonneg cs = true ->
+  exists i0 lw i1 w,
+    greset all_repaired g = Some i0 /\ remaining g i0 = Some lw /\
+    gnext all_repaired g i0 lw = Some (i1, w) /\ zlen w = lw /\
+    let W := zrange (repeat_row_stream n skip period sdelay w) 0 ((n + skip) * period) in
+    gen_repeat_reset period sdelay n skip st0 w = Some (fixed_arr W 0) /\
+    snd (src_fixed_run (fixed_arr W 0) cs) = zrange (repeat_row_stream n skip period sdelay w) 0 (sumZ cs).
+Proof. exact source_repeat_rows. Qed.
+Print Assumptions C01_source_repeat_rows.
